@@ -270,6 +270,7 @@ fn sets_as_rec(c: &SetsCfg) -> RecCfg {
         reader_init_fails: false,
         rset_fail_at: None,
         rec_fail_at: None,
+        io_fail_at: None,
         seed: c.seed,
     }
 }
@@ -538,7 +539,7 @@ fn gen_case(seed: u64, i: u64, only: &Option<String>) -> Case {
                 nrec,
                 wrap: if rng.chance(1, 3) { rng.range(5, 60) as usize } else { 0 },
                 bad_at: None,
-                bad_kind: rng.range(1, 3),
+                bad_kind: rng.range(1, 5),
                 reader_init_fails: false,
                 dinit_fail_at: None,
                 consumer: pick_consumer(&mut rng),
@@ -569,12 +570,13 @@ fn gen_case(seed: u64, i: u64, only: &Option<String>) -> Case {
                 nrec,
                 wrap: if rng.chance(1, 3) { rng.range(5, 60) as usize } else { 0 },
                 bad_at: None,
-                bad_kind: rng.range(1, 3),
+                bad_kind: rng.range(1, 5),
                 stop_after: None,
                 init: rng.chance(1, 2),
                 reader_init_fails: false,
                 rset_fail_at: None,
                 rec_fail_at: None,
+                io_fail_at: None,
                 seed: cseed,
             };
             match variant {
@@ -598,6 +600,7 @@ fn gen_case(seed: u64, i: u64, only: &Option<String>) -> Case {
                     c.init = true;
                     c.rec_fail_at = Some(rng.range(0, 12));
                 }
+                6 => c.io_fail_at = Some(rng.range(0, 8)),
                 _ => {}
             }
             Case::Rec(c)
